@@ -123,14 +123,23 @@ MUTANTS = [
     m('C03', 'armijo_inverted', (INF, "                if nols or curr_loss - ans[0] >= 0.5*alpha*dL.dot(nu-mu):", "                if nols or curr_loss - ans[0] <= 0.5*alpha*dL.dot(nu-mu):")),
     m('C03', 'ig_average_weights_swapped', (INF, "            x = (1-a)*x + a*z\n            if callback is not None:", "            x = a*x + (1-a)*z\n            if callback is not None:")),
     # ---- C08 ------------------------------------------------------------
-    m('C08', 'revert_F9_md_drift', (INF, "            dL = CliqueVector({ cl : dL[cl] - dL[cl].sum() / dL[cl].domain.size() for cl in dL })\n", "")),
+    m('C08', 'revert_F9_md_drift', (INF, "                theta = CliqueVector({ cl : theta[cl] - theta[cl].max() for cl in theta })\n", "")),
     m('C08', 'revert_F4_ig_zero_L', (INF, "        if L == 0: return\n    \n        theta = model.potentials\n        x = y = z", "    \n        theta = model.potentials\n        x = y = z")),
     m('C08', 'md_theta_mu_mismatch', (INF, "        model.potentials = theta\n        model.marginals = mu\n\n        return ans[0]", "        model.potentials = omega\n        model.marginals = mu\n\n        return ans[0]")),
     m('C08', 'rda_potentials_not_refit', (INF, "        model.marginals = w\n        model.potentials = model.mle(w) ", "        model.marginals = w\n        model.potentials = theta ")),
     m('C08', 'ig_marginals_from_last_z', (INF, "        model.marginals = x\n        model.potentials = model.mle(x) ", "        model.marginals = z\n        model.potentials = model.mle(x) ")),
     m('C08', 'mle_ignores_separator', (GM, "            potentials[cl] = marginals[cl].log() - marginals[cl].project(new).log()", "            potentials[cl] = marginals[cl].log() - marginals[cl].project(new[:1]).log()")),
     m('C08', 'md_early_exit_without_marginals_total', (INF, "        mu = model.belief_propagation(theta)\n        ans = self._marginal_loss(mu)\n        if ans[0] == 0:\n            return ans[0]", "        mu = model.belief_propagation(theta)\n        ans = self._marginal_loss(mu)\n        if ans[0] == 0:\n            model.marginals = mu * 0.5\n            return ans[0]")),
-    m('C03', 'revert_F9_md_drift', (INF, "            dL = CliqueVector({ cl : dL[cl] - dL[cl].sum() / dL[cl].domain.size() for cl in dL })\n", "")),
+    m('C03', 'revert_F9_md_drift', (INF, "                theta = CliqueVector({ cl : theta[cl] - theta[cl].max() for cl in theta })\n", "")),
+    # ---- C10 ------------------------------------------------------------
+    m('C10', 'revert_F2_rda_drops_theta0', (INF, "            theta = theta0 - t*(t+1)/(4*L+beta)/self.model.total * gbar", "            theta = -t*(t+1)/(4*L+beta)/self.model.total * gbar")),
+    m('C10', 'revert_F9_md_drift', (INF, "                theta = CliqueVector({ cl : theta[cl] - theta[cl].max() for cl in theta })\n", "")),
+    m('C10', 'zeros_not_combined', (INF, "        model.potentials.combine(self.structural_zeros)\n        if self.warm_start", "        if self.warm_start")),
+    m('C10', 'warm_start_overwrites', (INF, "            model.potentials.combine(self.model.potentials)", "            model.potentials = CliqueVector.zeros(self.domain, model.cliques); model.potentials.combine(self.model.potentials)")),
+    m('C10', 'active_ignores_key_order', (INF, "            dom = self.domain.project(cl)\n            fact = structural_zeros[cl]\n            self.structural_zeros[cl] = self.Factor.active(dom,fact)", "            dom = self.domain.project(self.domain.canonical(cl))\n            fact = structural_zeros[cl]\n            self.structural_zeros[cl] = self.Factor.active(dom,fact)")),
+    m('C10', 'zero_cliques_not_in_model', (INF, "        if self.structural_zeros is not None:\n            cliques += list(self.structural_zeros.keys())\n\n        model = GraphicalModel", "        model = GraphicalModel")),
+    m('C10', 'active_uses_large_negative', (FA, "        vals[idx] = -np.inf\n", "        vals[idx] = -100.0\n")),
+    m('C10', 'ig_theta_nan_to_num', (INF, "            theta = theta - a/c/total * g\n", "            theta = theta - a/c/total * g\n            theta = CliqueVector({cl: self.Factor(theta[cl].domain, np.nan_to_num(theta[cl].values, neginf=-50.0)) for cl in theta})\n")),
 ]
 
 
